@@ -49,18 +49,59 @@ def fast_subst(expr, mapping):
     return _Subst(mapping).visit(clone(expr))
 
 
-def fast_resolve(b, expr, at, keep=(), depth=8):
-    """Same result as sym.Bindings.resolve(expr, at=at, keep=keep), built from Bindings.reaching() but
-    with parent-free copies (local version: sym.py is shared and must not be edited)."""
+def reaching_sw(b, name, at, env):
+    """Like sym.Bindings.reaching, but an `if <switch>:` statement whose test is decided by the switch
+    assignment `env` contributes the definition made in the branch that is taken.
+    -> (defining expression, defining statement) or (None, None)."""
+    def in_block(block):
+        """scan a block backwards: ('def', expr, stmt) | ('kill',) | None (name untouched)"""
+        for s in reversed(block):
+            direct = [v for n, v in sym.split_assign(s) if n == name]
+            if direct:
+                return ("def", direct[-1], s)
+            if isinstance(s, ast.If) and env is not None:
+                r = sw_eval(s.test, env)
+                if r is not None:
+                    got = in_block(s.body if r else s.orelse)
+                    if got is not None:
+                        return got
+                    continue
+            if b._assigns(s, name):
+                return ("kill",)
+        return None
+
+    cur = au.enclosing_stmt(at)
+    while cur is not None and not isinstance(cur, (ast.FunctionDef, ast.AsyncFunctionDef, ast.Module)):
+        blk, owner = au.enclosing_block(cur)
+        if blk is None:
+            return None, None
+        idx = [id(x) for x in blk].index(id(cur))
+        got = in_block(blk[:idx])
+        if got is not None:
+            return (got[1], got[2]) if got[0] == "def" else (None, None)
+        if isinstance(owner, (ast.For, ast.AsyncFor, ast.While)):
+            if isinstance(owner, (ast.For, ast.AsyncFor)) and name in au.assigned_names(owner.target):
+                return None, None
+            if any(b._assigns(s, name) for s in owner.body):
+                return None, None
+        if isinstance(owner, ast.ExceptHandler):
+            owner = au.parent(owner)
+        cur = owner
+    return None, None
+
+
+def fast_resolve(b, expr, at, keep=(), depth=8, env=None):
+    """Same result as sym.Bindings.resolve(expr, at=at, keep=keep) (plus switch-decided definitions when
+    `env` is given), with parent-free copies (local version: sym.py is shared and must not be edited)."""
     if depth <= 0:
         return clone(expr)
     mapping = {}
     for n in sorted(au.names(expr)):
         if n in keep:
             continue
-        d = b.reaching(n, at)
+        d, dst = reaching_sw(b, n, at, env)
         if d is not None and n not in au.names(d):
-            mapping[n] = fast_resolve(b, d, b._last_def_stmt, keep, depth - 1)
+            mapping[n] = fast_resolve(b, d, dst, keep, depth - 1, env)
     e = clone(expr)
     return _Subst(mapping).visit(e) if mapping else e
 
@@ -286,7 +327,7 @@ class GridFn:
 
     def resolved(self, expr, at, run, loops=None):
         keep = tuple(self.mesh) + tuple(self._all_handles())
-        e = fast_resolve(self.b, expr, at, keep)
+        e = fast_resolve(self.b, expr, at, keep, env=run.env)
         e = FoldSwitch(run.env).visit(e)
         if loops is not None:
             cs = {n for n in au.names(e) if n in self.counters()}
@@ -433,7 +474,9 @@ class GridFn:
                     continue
                 if not self.has_effects(st):
                     continue
-                cons = parse_guard(st.test, self._loopvars(loops))   # raises Unsupported
+                keep = tuple(self.mesh) + tuple(self._all_handles())
+                cons = parse_guard(st.test, self._loopvars(loops),
+                                   lambda e, st=st: fast_resolve(self.b, e, st, keep, env=run.env))   # raises Unsupported
                 self._walk(st.body, loops, guards + [(st.test, True, cons)], run)
                 self._walk(st.orelse, loops, guards + [(st.test, False, cons)], run)
                 continue
@@ -541,12 +584,7 @@ class GridFn:
             if not pol:
                 exact = False
                 continue
-            for var, op, bexpr in cons:
-                try:
-                    bp = sym.to_poly(fast_resolve(self.b, bexpr, em.stmt), opaque=True)
-                except Exception:
-                    exact = False
-                    continue
+            for var, op, bp in cons:
                 if var not in rng or (bp.atoms() & set(rng)):
                     exact = False
                     continue
@@ -774,8 +812,9 @@ def value_names(e):
     return {n.id for n in au.walk(e) if isinstance(n, ast.Name) and id(n) not in skip}
 
 
-def parse_guard(test, loopvars):
-    """A conjunction of comparisons `loopvar <op> bound` -> [(var, op, bound expr)]; anything else Unsupported."""
+def parse_guard(test, loopvars, resolve=None):
+    """A conjunction of comparisons that are affine in one loop variable with coefficient +-1
+    (`i < nu-1`, `j+1 < nv`, `nu-1 > i`) -> [(var, op, bound polynomial)]; anything else Unsupported."""
     conj = test.values if isinstance(test, ast.BoolOp) and isinstance(test.op, ast.And) else [test]
     ops = {ast.Lt: "<", ast.LtE: "<=", ast.Gt: ">", ast.GtE: ">="}
     flip = {"<": ">", "<=": ">=", ">": "<", ">=": "<="}
@@ -788,12 +827,21 @@ def parse_guard(test, loopvars):
             if type(op) not in ops:
                 raise Unsupported(f"mesh updates guarded by `{au.src(test)}`")
             o = ops[type(op)]
-            if isinstance(l, ast.Name) and l.id in loopvars and not (au.names(r) & loopvars):
-                out.append((l.id, o, r))
-            elif isinstance(r, ast.Name) and r.id in loopvars and not (au.names(l) & loopvars):
-                out.append((r.id, flip[o], l))
-            else:
+            try:
+                D = sym.to_poly(resolve(l) if resolve else l, opaque=False) - sym.to_poly(resolve(r) if resolve else r, opaque=False)
+            except sym.NotPoly:
                 raise Unsupported(f"mesh updates guarded by `{au.src(test)}`")
+            vs = [a for a in D.atoms() if a in loopvars]
+            if len(vs) != 1 or D.degree_in(vs[0]) != 1 or not D.coeff(vs[0]).is_const() or abs(D.coeff(vs[0]).const_value()) != 1:
+                raise Unsupported(f"mesh updates guarded by `{au.src(test)}`")
+            x = vs[0]
+            cf = D.coeff(x).const_value()
+            rest = D.without(x)
+            # cf*x + rest <o> 0
+            if cf == 1:
+                out.append((x, o, -rest))
+            else:
+                out.append((x, flip[o], rest))
     return out
 
 
